@@ -336,21 +336,37 @@ theorem genCond_fresh (c : Cond) : ∀ (g : GState) (negate : Bool) (label : Lbl
       · exact Or.inl (Or.inr hl)
       · subst hl; right; simp [NewIn, LKind.ctr, GState.ctr, Lbl.idx]; omega
 
-theorem gen_fresh (st : SStmt) : ∀ g : GState, Fresh g (gen g st) := by
+theorem gen_fresh (st : SStmt) : ∀ (lp : LoopCtx) (g : GState), Fresh g (gen lp g st) := by
   induction st with
-  | flat s => intro g; exact genFlat_fresh g s
-  | skip => intro g; exact fresh_nolabels g [] rfl
+  | flat s => intro lp g; exact genFlat_fresh g s
+  | skip => intro lp g; exact fresh_nolabels g [] rfl
+  | brk => intro lp g; cases lp <;> exact fresh_nolabels g _ rfl
+  | cont => intro lp g; cases lp <;> exact fresh_nolabels g _ rfl
+  | ifBrk c =>
+    intro lp g
+    cases lp with
+    | none => exact ⟨mono_cIf g, fun l hl => by simp [gen] at hl⟩
+    | some p =>
+      have h := genCond_fresh c { g with cIf := g.cIf + 1 } false p.2
+      exact ⟨(mono_cIf g).trans h.1, fun l hl => (h.2 l hl).widen (mono_cIf g) (Mono.refl _)⟩
+  | ifCont c =>
+    intro lp g
+    cases lp with
+    | none => exact ⟨mono_cIf g, fun l hl => by simp [gen] at hl⟩
+    | some p =>
+      have h := genCond_fresh c { g with cIf := g.cIf + 1 } false p.1
+      exact ⟨(mono_cIf g).trans h.1, fun l hl => (h.2 l hl).widen (mono_cIf g) (Mono.refl _)⟩
   | seq a b iha ihb =>
-    intro g
+    intro lp g
     simp only [gen]
-    exact fresh_append (iha g) (ihb _)
+    exact fresh_append (iha lp g) (ihb lp _)
   | ifThen c t iht =>
-    intro g
+    intro lp g
     simp only [gen]
     rcases hcc : genCond { g with cIf := g.cIf + 1 } c true ⟨.ifend, g.cIf + 1⟩ with ⟨cc, g1⟩
-    rcases hct : gen g1 t with ⟨ct, g2⟩
+    rcases hct : gen lp g1 t with ⟨ct, g2⟩
     have hc : Fresh { g with cIf := g.cIf + 1 } (cc, g1) := hcc ▸ genCond_fresh ..
-    have ht : Fresh g1 (ct, g2) := hct ▸ iht g1
+    have ht : Fresh g1 (ct, g2) := hct ▸ iht lp g1
     have h2 := fresh_append hc ht
     have h1 := h2.1 .cIf
     simp [GState.ctr] at h1
@@ -362,15 +378,15 @@ theorem gen_fresh (st : SStmt) : ∀ g : GState, Fresh g (gen g st) := by
     · exact Or.inl (Or.inr hl)
     · subst hl; right; simp [NewIn, LKind.ctr, GState.ctr, Lbl.idx]; omega
   | ifElse c t e iht ihe =>
-    intro g
+    intro lp g
     simp only [gen]
     rcases hcc : genCond { g with cIf := g.cIf + 1 } c true ⟨.else_, g.cIf + 1⟩ with ⟨cc, g1⟩
-    rcases hct : gen g1 t with ⟨ct, g2⟩
-    rcases hce : gen { g2 with flags := if c.singleExit then g1.flags else none } e with ⟨ce, g3⟩
+    rcases hct : gen lp g1 t with ⟨ct, g2⟩
+    rcases hce : gen lp { g2 with flags := if c.singleExit then g1.flags else none } e with ⟨ce, g3⟩
     have hc : Fresh { g with cIf := g.cIf + 1 } (cc, g1) := hcc ▸ genCond_fresh ..
-    have ht : Fresh g1 (ct, g2) := hct ▸ iht g1
+    have ht : Fresh g1 (ct, g2) := hct ▸ iht lp g1
     have he : Fresh g2 (ce, g3) := by
-      have := ihe { g2 with flags := if c.singleExit then g1.flags else none }
+      have := ihe lp { g2 with flags := if c.singleExit then g1.flags else none }
       rw [hce, fresh_flags_left] at this
       exact this
     have h3 := fresh_append (fresh_append hc ht) he
@@ -386,12 +402,12 @@ theorem gen_fresh (st : SStmt) : ∀ g : GState, Fresh g (gen g st) := by
     · exact Or.inl (Or.inr (Or.inr hl))
     · subst hl; right; simp [NewIn, LKind.ctr, GState.ctr, Lbl.idx]; omega
   | «while» c b ihb =>
-    intro g
+    intro lp g
     simp only [gen]
     rcases hcc : genCond { g with cWhile := g.cWhile + 1, flags := none } c true ⟨.whileend, g.cWhile + 1⟩ with ⟨cc, g1⟩
-    rcases hcb : gen g1 b with ⟨cb, g2⟩
+    rcases hcb : gen (some (⟨.while_, g.cWhile + 1⟩, ⟨.whileend, g.cWhile + 1⟩)) g1 b with ⟨cb, g2⟩
     have hc : Fresh { g with cWhile := g.cWhile + 1, flags := none } (cc, g1) := hcc ▸ genCond_fresh ..
-    have hb : Fresh g1 (cb, g2) := hcb ▸ ihb g1
+    have hb : Fresh g1 (cb, g2) := hcb ▸ ihb _ g1
     have h2 := fresh_append hc hb
     have h1 := h2.1 .cWhile
     simp [GState.ctr] at h1
@@ -404,33 +420,46 @@ theorem gen_fresh (st : SStmt) : ∀ g : GState, Fresh g (gen g st) := by
     · exact Or.inl (Or.inr hl)
     · subst hl; right; simp [NewIn, LKind.ctr, GState.ctr, Lbl.idx]; omega
   | doWhile b c ihb =>
-    intro g
+    intro lp g
     simp only [gen]
-    rcases hcb : gen { g with cWhile := g.cWhile + 1, flags := none } b with ⟨cb, g1⟩
-    rcases hcc : genCond g1 c false ⟨.dowhile, g.cWhile + 1⟩ with ⟨cc, g2⟩
-    have hb : Fresh { g with cWhile := g.cWhile + 1, flags := none } (cb, g1) := hcb ▸ ihb _
-    have hc : Fresh g1 (cc, g2) := hcc ▸ genCond_fresh ..
+    rcases hcb : gen (some (⟨.dowhilecondition, g.cWhile + 1⟩, ⟨.dowhileend, g.cWhile + 1⟩)) { g with cWhile := g.cWhile + 1, flags := none } b with ⟨cb, g1⟩
+    rcases hcc : genCond (if contHere b then { g1 with flags := none } else g1) c false ⟨.dowhile, g.cWhile + 1⟩ with ⟨cc, g2⟩
+    have hb : Fresh { g with cWhile := g.cWhile + 1, flags := none } (cb, g1) := hcb ▸ ihb _ _
+    have hc : Fresh g1 (cc, g2) := by
+      have : Fresh (if contHere b then { g1 with flags := none } else g1) (cc, g2) := hcc ▸ genCond_fresh ..
+      by_cases hcn : contHere b = true
+      · simp only [hcn, if_true] at this; rwa [fresh_flags_left] at this
+      · simpa [hcn] using this
     have h2 := fresh_append hb hc
     have h1 := h2.1 .cWhile
-    simp [GState.ctr] at h1
+    have h0 := hb.1 .cWhile
+    simp [GState.ctr] at h1 h0
     apply fresh_of none (mono_cWhile g none) h2
     intro l hl
-    simp at hl ⊢
-    rcases hl with hl | hl | hl | hl
-    · subst hl; right; simp [NewIn, LKind.ctr, GState.ctr, Lbl.idx]; omega
-    · exact Or.inl (Or.inl hl)
-    · exact Or.inl (Or.inr hl)
-    · subst hl; right; simp [NewIn, LKind.ctr, GState.ctr, Lbl.idx]; omega
+    by_cases hcn : contHere b = true
+    · simp [hcn] at hl ⊢
+      rcases hl with hl | hl | hl | hl | hl
+      · subst hl; right; simp [NewIn, LKind.ctr, GState.ctr, Lbl.idx]; omega
+      · exact Or.inl (Or.inl hl)
+      · subst hl; right; simp [NewIn, LKind.ctr, GState.ctr, Lbl.idx]; omega
+      · exact Or.inl (Or.inr hl)
+      · subst hl; right; simp [NewIn, LKind.ctr, GState.ctr, Lbl.idx]; omega
+    · simp [hcn] at hl ⊢
+      rcases hl with hl | hl | hl | hl
+      · subst hl; right; simp [NewIn, LKind.ctr, GState.ctr, Lbl.idx]; omega
+      · exact Or.inl (Or.inl hl)
+      · exact Or.inl (Or.inr hl)
+      · subst hl; right; simp [NewIn, LKind.ctr, GState.ctr, Lbl.idx]; omega
   | «for» i c u b ihb =>
-    intro g
+    intro lp g
     simp only [gen]
     rcases hc1 : genCond (genFlat { g with cFor := g.cFor + 1 } i).2 c true ⟨.forend, g.cFor + 1⟩ with ⟨c1, g2⟩
-    rcases hcb : gen { g2 with flags := none } b with ⟨cb, g3⟩
+    rcases hcb : gen (some (⟨.forupdate, g.cFor + 1⟩, ⟨.forend, g.cFor + 1⟩)) { g2 with flags := none } b with ⟨cb, g3⟩
     rcases hc2 : genCond (genFlat { g3 with flags := none } u).2 c false ⟨.for_, g.cFor + 1⟩ with ⟨c2, g5⟩
     have hi : Fresh { g with cFor := g.cFor + 1 } (genFlat { g with cFor := g.cFor + 1 } i) := genFlat_fresh ..
     have h1 : Fresh (genFlat { g with cFor := g.cFor + 1 } i).2 (c1, g2) := hc1 ▸ genCond_fresh ..
     have hb : Fresh g2 (cb, g3) := by
-      have := ihb { g2 with flags := none }
+      have := ihb (some (⟨.forupdate, g.cFor + 1⟩, ⟨.forend, g.cFor + 1⟩)) { g2 with flags := none }
       rw [hcb, fresh_flags_left] at this
       exact this
     have hu : Fresh g3 (genFlat { g3 with flags := none } u) := by
